@@ -54,6 +54,20 @@ def main():
         traceback.print_exc()
         sys.stderr.write("HARNESS ERROR: import failed\n")
         return 2
+    # watchdog: a hang is "inconclusive" (exit 2), never a violation and never an endless run
+    import signal
+
+    def on_alarm(signum, frame):
+        sys.stderr.write("HARNESS ERROR: time budget exceeded (inconclusive)\n")
+        sys.stderr.flush()
+        try:
+            import multiprocessing
+            for c in multiprocessing.active_children():
+                c.kill()
+        finally:
+            os._exit(2)
+    signal.signal(signal.SIGALRM, on_alarm)
+    signal.alarm(int(os.environ.get("VERIF_TIMEOUT", "900" if a.tier == "quick" else "14400")))
     try:
         if a.replay:
             return runner.replay(mod, a.replay)
